@@ -541,7 +541,25 @@ func runC18(rc *RunCtx) (*Violation, error) {
 	rc.NonTrivial = len(h.ops) >= 5
 	rc.StateSig = fmt.Sprint(len(h.ops))
 	ops := h.ops
-	rc.PostCheck = func() *Violation { return checkLinearizable(rc, partRegisterModel(), ops, "part-register") }
+	rc.PostCheck = func() *Violation {
+		v := checkLinearizable(rc, partRegisterModel(), ops, "part-register")
+		if v == nil {
+			return nil
+		}
+		// classify: is the run consistent up to the drain, and only the drained
+		// end state contradicts the last committed operations?
+		var live []porcupine.Operation
+		for _, o := range ops {
+			if o.ClientId != 99 {
+				live = append(live, o)
+			}
+		}
+		if res, _ := porcupine.CheckOperationsVerbose(partRegisterModel(), live, 20*time.Second); res == porcupine.Ok {
+			v.FindingKey = "drained-state-not-latest-committed-op"
+			v.Message = "the history up to the drain is linearizable, but the state the outbox store and the inner store report after the drain is not the result of the latest committed operation of some part (a stale outbox entry was replayed late)\n" + v.Message
+		}
+		return v
+	}
 	return nil, nil
 }
 
